@@ -188,8 +188,6 @@ def run(chk):
                         "processes executor has no retry wrapper of its own; covered end-to-end only"]
 
 
-if __name__ == "__main__":
-    sys.exit(main(run, "C08"))
 
 
 # ------------------------------------------------------------------------------------------------ mechanism-level drift
@@ -276,3 +274,7 @@ def mechanism_drift(chk, rng):
         finally:
             shutil.rmtree(d, ignore_errors=True)
     chk.extra["mechanism_trace_validation"] = summary
+
+
+if __name__ == "__main__":
+    sys.exit(main(run, "C08"))
